@@ -63,7 +63,9 @@ impl JoinedTableData {
                 }
             }
 
-            if let Ok(line) = line {
+            // A line that cannot be read (I/O error, invalid UTF-8) is reported, not silently treated as the end of the file
+            let line = line.map_err(|err| ExecutionError::FailReadFile(format!("{}", err)))?;
+            {
                 let result = execution_engine.execute(line.clone(), &config)?.result_row;
                 if let Some(result) = result {
                     for row in result.data {
@@ -73,8 +75,6 @@ impl JoinedTableData {
                         );
                     }
                 }
-            } else {
-                break;
             }
         }
 
